@@ -245,11 +245,18 @@ func AdmittingUnknown(r *core.Rand, part cty.Value, refined, allowDynamic bool) 
 			if r.Bool() {
 				hi = n + r.Intn(3)
 			}
+			if r.Chance(1, 5) {
+				// a loose upper bound around the sizes at which code that multiplies, sums or caps length bounds
+				// changes its mind (32 / 64 / 1024 / 2048 thresholds, 31- and 62-bit products)
+				hi = n + looseLengths[r.Intn(len(looseLengths))]
+			}
 			b = b.CollectionLengthUpperBound(hi)
 		}
 	}
 	return b.NewValue()
 }
+
+var looseLengths = []int{31, 32, 48, 63, 64, 900, 1023, 1024, 1025, 2048, 2049, 5000, 65536, 1 << 31, 1 << 32, 1 << 40, 1 << 61, 1 << 62}
 
 // boundNear returns a bound on side dir (-1 lower, +1 upper) that is true of f
 // under exact comparison: f itself inclusively, or a strict neighbour
